@@ -582,6 +582,17 @@ func (w *World) Connect() {
 	}
 }
 
+// IDsExcept returns the first k configured ids other than skip.
+func (w *World) IDsExcept(skip hotstuff.ID, k int) []hotstuff.ID {
+	var out []hotstuff.ID
+	for _, id := range IDs(w.N) {
+		if id != skip && len(out) < k {
+			out = append(out, id)
+		}
+	}
+	return out
+}
+
 // M returns the member with the given id.
 func (w *World) M(id hotstuff.ID) *Member { return w.Members[int(id)-1] }
 
